@@ -6,6 +6,9 @@ import PhysisModel.Proofs.C18Mtrl
 import PhysisModel.Proofs.C18Shpk
 import PhysisModel.Proofs.C18Skel
 import PhysisModel.Proofs.C18Mdl
+import PhysisModel.Proofs.C18Stm
+import PhysisModel.Proofs.C18Avfx
+import PhysisModel.Proofs.C18Lgb
 /-!
 # C18 — damaged game data is rejected without crashing
 
@@ -295,5 +298,51 @@ theorem c18_mdl_name_scan_unfixed_witness : faults (C18Mdl.nameScanUnfixed [0x61
   faults_of_isFault (by decide +kernel)
 example : (C18Mdl.readName [0x61, 0x62] 0).cls = "none" := by decide +kernel
 example : (C18Mdl.readName [0x61, 0x62, 0] 0).cls = "some" := by decide +kernel
+/-! ## part `pbc`: the panic-by-construction readers that a small repair makes total (stm, avfx) -/
+
+/-- `StainingTemplate::from_existing` (repaired by `fixes/C18-60`) -/
+theorem c18_stm_total (b : Bytes) : ¬ faults (C18Stm.fromExisting b) := (C18Stm.fromExisting_good b).1
+theorem c18_stm_alloc (b : Bytes) : (C18Stm.fromExisting b).peak ≤ 64 * b.length + 16777216 :=
+  (C18Stm.fromExisting_good b).2
+/-- pinned commit: the empty buffer hits `StmHeader::read(..).unwrap()`; a header declaring one entry
+whose five "ends" are missing hits `read_le::<u16>().unwrap()` -/
+theorem c18_stm_unfixed_witness :
+    faults (C18Stm.fromExistingUnfixed []) ∧
+    faults (C18Stm.fromExistingUnfixed [0, 0, 0, 0, 1, 0, 0, 0, 100, 0, 0, 0]) :=
+  ⟨faults_of_isFault (by decide), faults_of_isFault (by decide)⟩
+example : (C18Stm.fromExisting [0, 0, 0, 0, 1, 0, 0, 0, 100, 0, 0, 0, 1, 0, 2, 0, 3, 0, 4, 0, 5, 0]).isOk = true := by
+  decide
+
+/-- `Avfx::from_existing` (repaired by `fixes/C18-61`, `C18-62`): terminates (the loop consumes at
+least the 4-byte tag per iteration), never panics, allocates nothing input-sized -/
+theorem c18_avfx_total (b : Bytes) : ¬ faults (C18Avfx.fromExisting b) := (C18Avfx.fromExisting_good b).1
+theorem c18_avfx_alloc (b : Bytes) : (C18Avfx.fromExisting b).peak ≤ 64 * b.length + 16777216 :=
+  (C18Avfx.fromExisting_good b).2
+/-- pinned commit: a header announcing more data than present hits `AvfxBlock::read(..).unwrap()`;
+an `nCcS` (scheduler count) block hits `todo!()`; a `reV\0` block of size 0 underflows
+`block.size - read_bytes` -/
+theorem c18_avfx_unfixed_witness :
+    faults (C18Avfx.fromExistingUnfixed [0x58, 0x46, 0x56, 0x41, 0xFF, 0xFF, 0xFF, 0x7F]) ∧
+    faults (C18Avfx.fromExistingUnfixed
+      [0x58, 0x46, 0x56, 0x41, 16, 0, 0, 0, 0x6E, 0x43, 0x63, 0x53, 4, 0, 0, 0, 1, 0, 0, 0]) ∧
+    faults (C18Avfx.fromExistingUnfixed
+      [0x58, 0x46, 0x56, 0x41, 16, 0, 0, 0, 0x72, 0x65, 0x56, 0x00, 0, 0, 0, 0, 1, 0, 0, 0]) :=
+  ⟨faults_of_isFault (by decide), faults_of_isFault (by decide), faults_of_isFault (by decide)⟩
+example : (C18Avfx.fromExisting
+    [0x58, 0x46, 0x56, 0x41, 12, 0, 0, 0, 0x72, 0x65, 0x56, 0x00, 4, 0, 0, 0, 1, 0, 0, 0]).isOk = true := by decide
+
+/-- `LayerGroup::from_existing` (repaired by `fixes/C18-65`, `C18-68`, `C18-69`): every header, heap
+string, referenced list, offset table and instance object (all 29 variants) for every byte string;
+the offset tables are the only input-sized requests and are checked against the remaining input -/
+theorem c18_lgb_total (b : Bytes) : ¬ faults (C18Lgb.fromExisting b) := (C18Lgb.fromExisting_good b).1
+theorem c18_lgb_alloc (b : Bytes) : (C18Lgb.fromExisting b).peak ≤ 64 * b.length + 16777216 :=
+  (C18Lgb.fromExisting_good b).2
+
+/-- non-vacuity: the repository's `resources/tests/empty_planlive.lgb` is accepted, its first 44 bytes
+(chunk name without terminator) are rejected -/
+example : (C18Lgb.fromExisting [76, 71, 66, 49, 45, 0, 0, 0, 1, 0, 0, 0, 76, 71, 80, 49, 24, 0, 0, 0, 5, 1, 0, 0,
+    16, 0, 0, 0, 16, 0, 0, 0, 0, 0, 0, 0, 80, 108, 97, 110, 76, 105, 118, 101, 0]).isOk = true := by decide
+example : (C18Lgb.fromExisting [76, 71, 66, 49, 45, 0, 0, 0, 1, 0, 0, 0, 76, 71, 80, 49, 24, 0, 0, 0, 5, 1, 0, 0,
+    16, 0, 0, 0, 16, 0, 0, 0, 0, 0, 0, 0, 80, 108, 97, 110, 76, 105, 118, 101]).isOk = false := by decide
 
 end Physis.C18
